@@ -4,6 +4,7 @@
 import BorshModel.SchemaCodec
 import BorshModel.Lemmas.Totality
 import BorshModel.Lemmas.ValidateSound
+import BorshModel.Lemmas.ValidateIff
 namespace Borsh
 
 /-- "a legal length width (0, 1, 2, 4 or 8 bytes and wide enough for the largest length)":
@@ -102,5 +103,27 @@ theorem C10_error_is_real (c : Container) (e : ValErr) (h : c.validate = .error 
 theorem C10_zero_size_missing_is_real (c : Container) (d m : Name)
     (h : isZeroSize c (c.defs.length + 1) d [] = .error (.missing m)) : c.get m = none :=
   isZeroSize_missing c _ d [] m h
+
+/-- **Validation succeeds if and only if the container is well-formed**: every declaration
+reachable from the root is defined, every dynamically sized sequence has a non-empty length range,
+a legal length width (0, 1, 2, 4 or 8 bytes, wide enough for the largest length) and elements that
+are not zero-sized (no finite derivation of zero-sizedness; a cycle is not zero-sized), and every
+enum tag is at most eight bytes wide — for **every** container, hostile ones included. -/
+theorem C10_validate_ok_iff_wellformed (c : Container) : c.validate = .ok () ↔ WellFormed c :=
+  validate_ok_iff c
+
+/-- the zero-size analysis answers `Ok(true)` exactly on the declarations that have a finite
+derivation of zero-sizedness -/
+theorem C10_zero_size_iff (c : Container) (d : Name) :
+    isZeroSize c (c.defs.length + 1) d [] = .ok true ↔ ZeroSized c d :=
+  isZeroSize_iff c d
+
+/-- non-vacuity: a well-formed container with a cycle through a tuple, and an ill-formed one whose
+defect sits behind a zero-length array (so is still reachable) -/
+example :
+    (Container.validate ⟨[65], [([65], .tuple [[65], [117]]), ([117], .primitive 1)]⟩ = .ok ()) ∧
+    (Container.validate ⟨[65], [([65], .sequence 0 0 0 [66]), ([66], .enum 9 [])]⟩
+        = .error (.tagTooWide [66])) := by
+  decide +kernel
 
 end Borsh
